@@ -120,7 +120,11 @@ func checkPure(c Case) (pbt.Info, error) {
 
 func genState(t *rapid.T, kind string) Case {
 	c := Case{Cfg: refl.GenCfg(t, kind)}
-	c.Build = refl.GenSteps(t, mutatorMethods(c.Cfg), 2, 10)
+	chunks := 2
+	if rapid.IntRange(0, 7).Draw(t, "big-build") == 0 {
+		chunks = 9 // dozens to hundreds of elements
+	}
+	c.Build = refl.GenSteps(t, mutatorMethods(c.Cfg), chunks, 12)
 	return c
 }
 
